@@ -273,8 +273,11 @@ pub fn run_scenarios(r: &mut Report, scns: Vec<Scn>, tier: &str) {
   let mut per_scn = vec![];
   let mut total_outcomes = 0usize;
   for sc in &scns {
+    // VERIF_BOUND_ADD deepens every scenario of the run by that many deviations (the thorough
+    // commands of the cheap checks set it; the bound that was really completed goes into the evidence)
+    let bound_add = std::env::var("VERIF_BOUND_ADD").ok().and_then(|x| x.parse::<u32>().ok()).unwrap_or(0);
     let bound = match if thorough { sc.bounds.1 } else { sc.bounds.0 } {
-      Some(b) => b,
+      Some(b) => b + bound_add,
       None => continue,
     };
     if let Some(o) = &only {
